@@ -253,7 +253,19 @@ class Interp2(Interp):
                 self.oblige_frame(node, f"mutation of `{target.id}`, which is not local to this activation and not declared modifiable")
             newval.fresh = True
             self.st.env[target.id] = newval
+            al = self.st.aliases.get(target.id)
+            if al is not None and not getattr(self, "_in_alias_wb", False):
+                self._in_alias_wb = True
+                try:
+                    self.writeback(al, SAdt(newval.sort, newval.t, fresh=True, pyclass=newval.pyclass), node)   # the same object is an element of that container
+                finally:
+                    self._in_alias_wb = False
             return
+        if isinstance(target, ast.Subscript) and not isinstance(target.slice, ast.Slice):
+            base = self.eval(target.value)
+            if self.set_item_hook(base, target.slice, newval, target):
+                return
+            raise Unsupported(f"cannot write back through `{ast.unparse(target)}`")
         if isinstance(target, ast.Attribute):
             base = self.eval(target.value)
             if isinstance(base, SAdt) and base.sort == "Node" and target.attr in ("attrs", "children", "name", "add_ws"):
